@@ -18,7 +18,7 @@ import math
 
 from hypothesis import strategies as st
 
-SIM_NAMES = ['x', 'x1', 'xx', 'y', 'y2', 'z', 'w', 'u', 'v', 'c1', 'inc', 'HH__F', 'GOV__T', 'BUS__SUP', 'a_b', 'x_1', '_w', '_s1']
+SIM_NAMES = ['x', 'x1', 'xx', 'y', 'y2', 'z', 'w', 'u', 'v', 'c1', 'inc', 'HH__F', 'GOV__T', 'BUS__SUP', 'a_b', 'x_1', '_w', '_s1', 'x0', 'K10', 'a00']
 CONST_NAMES = ['p', 'p2', 'alpha', 'HH__AlphaFin']
 ALIAS_NAMES = ['al', 'al2', 'same', 'HH__DEM', 'alx']
 LEAF_NAMES = ['d', 'd2', 'out', 'GOV__BAL', 'dd']
@@ -143,7 +143,9 @@ def system(draw, n_sim=(1, 6), q_hi=80, q_lo=0, feedforward=None, lags=(0, 3), e
                     parts.append(fmt_coef_term(c, var, style))
         if time_terms and kind != 'leaf' and draw(st.sampled_from([False, False, False, False, True])):
             # a small time trend: k is the step counter, t the (default or user-defined) time axis
-            parts.append(('+', draw(st.sampled_from(['0.01*k', '0.02*t', 'k*0.005']))))
+            # (arithmetic on the time variables, also in the shape of the lag notation: 0.02*(t-1) is NOT a lag)
+            parts.append(('+', draw(st.sampled_from(['0.01*k', '0.02*t', 'k*0.005', '0.02*(t-1)', '0.01*(k-1)',
+                                                     '(t-1)*0.005']))))
         cst = draw(st.integers(-const_mag, const_mag))
         if cst != 0 or not parts:
             parts.insert(draw(st.integers(0, len(parts))), ('-' if cst < 0 else '+', dec(abs(cst))))
